@@ -6,6 +6,12 @@ import json, os, sys
 pid, wt = sys.argv[1:3]
 root = os.path.dirname(os.path.dirname(os.path.abspath(__file__)))
 prop = next(json.loads(l) for l in open(os.path.join(root, "properties.jsonl")) if json.loads(l)["id"] == pid)
+earlier = []
+for d in sorted(os.listdir(os.path.join(root, "benign"))):
+    mp = os.path.join(root, "benign", d, "meta.json")
+    if os.path.exists(mp) and json.load(open(mp)).get("checks", "").split()[:1] == [pid]:
+        earlier.append(d.split("-", 1)[-1].replace("-", " "))
+earlier_txt = ("Other maintainers have already made these behaviour-preserving changes (short tags): " + "; ".join('"%s"' % t for t in earlier) + ". Make a DIFFERENT one.\n\n") if earlier else ""
 print(f"""You are helping to evaluate a verification framework for the Python library gugarosa/opfython (Optimum-Path Forest classifiers). Your job is to play the role of a maintainer who makes a legitimate, BEHAVIOUR-PRESERVING change to the code.
 
 You have your own scratch git worktree of the library at {wt} (work ONLY there; never touch /repo or /verif, never read anything under /verif). The package under test is {wt}/opfython. Run Python as `cd {wt} && PYTHONPATH={wt} /venv/bin/python ...` and check `opfython.__file__` points into {wt}. The existing test suite is run with: `cd {wt} && PYTHONPATH={wt} /venv/bin/python -m pytest -q -p no:cacheprovider --timeout=900 tests` (the whole suite passes on the unchanged code). No network is available.
@@ -16,12 +22,13 @@ Here is a semantic property that the library satisfies and MUST STILL SATISFY af
   Statement: {prop['statement']}
   Quantified over: {prop['quantifier']['text']}
 
-Task: produce ONE non-trivial change to the library source (files under {wt}/opfython only; not tests) in the code this property is about, such that the property STILL HOLDS for every input in its scope, the package imports, and the whole existing test suite still passes - but the change alters HOW the result is produced in a way that a too-literal checker might wrongly flag. Good candidates (pick what fits this property; combine two if you like):
+{earlier_txt}Task: produce ONE non-trivial change to the library source (files under {wt}/opfython only; not tests) in the code this property is about, such that the property STILL HOLDS for every input in its scope, the package imports, and the whole existing test suite still passes - but the change alters HOW the result is produced in a way that a too-literal checker might wrongly flag. Good candidates (pick what fits this property; combine two if you like):
   - a different but equally valid choice where the property leaves freedom (which of several equally good elements / neighbours / trees / tie winners is taken; order of equal items; which of two equivalent formulas is used);
   - a different evaluation order or loop structure (vectorised numpy instead of Python loops, early exits that provably cannot change the result, hoisting that is genuinely loop-invariant, iterating in another order);
   - floating-point-neutral or last-bit-level reformulations ONLY where the property says "up to rounding"; where the property demands exact equality between two code paths, keep them exactly equal;
   - internal representation changes (private attribute added/renamed, a cache that IS correctly invalidated, lists instead of arrays internally, a helper inlined or extracted, extra private method);
-  - doing strictly more validation on inputs that are outside the property's scope.
+  - doing strictly more validation on inputs that are outside the property's scope;
+  - state that is private to the implementation: a lazily built lookup structure or cache stored on the model / subgraph / heap object (correctly invalidated by fit), bookkeeping attributes, a different private representation of the same information.
 Do NOT change public names, signatures, documented return types, or anything the property's statement pins down. The diff should be 5-40 lines and look like something a maintainer would merge.
 
 Deliver, in the directory {wt}/_seed/ :
